@@ -56,6 +56,13 @@ def gen_plan(rng, index, tier):
         st["trackAssems"] = False  # (tracking into the grid-less default pool is a recorded finding)
     if plate and rng.random() < 0.85:
         st["stationaryBlockFlags"] = ["GRID_PLATE"]
+        if rng.random() < 0.35:
+            # two kinds of stationary blocks; with one more fuel block in the outer assemblies the
+            # plena do not line up, so exchanging an igniter with an outer assembly must be refused -
+            # entirely: the grid plates, which do line up, stay where they are
+            bp["plenum"] = True
+            st["stationaryBlockFlags"] = ["GRID_PLATE", "PLENUM"]
+            bp["oc_extra_fuel"] = rng.random() < 0.6
     else:
         st["stationaryBlockFlags"] = []
     cfg = {"reactor": "gen", "blueprint": bp, "settings": st, "actors": [], "rejected": rng.random() < 0.2}
